@@ -383,9 +383,9 @@ RECURSIVE SeqsUpTo(_, _)
 SeqsUpTo(S, n) == IF n = 0 THEN {<<>>}
                   ELSE LET prev == SeqsUpTo(S, n - 1) IN prev \cup {Append(s, x) : s \in {t \in prev : Len(t) = n - 1}, x \in S}
 MidRecs == {R(a, b) : a \in {0, 1, -1, -2}, b \in {0, 2, -1}}
-\* "quick": ten of the curated inputs (sorted asc / desc with and without nulls,
-\* unsorted with duplicate keys, null and missing in both fields, adjacent duplicates)
-CoreIx == {1, 9, 10, 17, 18, 19, 22, 23, 24, 27}
+\* "quick": eight of the curated inputs (sorted asc / desc with and without nulls,
+\* unsorted, null and missing in both fields, adjacent duplicates)
+CoreIx == {9, 10, 17, 18, 19, 23, 24, 27}
 InputsOf ==
   IF InputSet = "quick" THEN {QuickInputs[i] : i \in CoreIx}
   ELSE IF InputSet = "curated" THEN SeqRange(QuickInputs)
